@@ -16,4 +16,4 @@ Definition c_SQFS_BLK_USER_SETTABLE_FLAGS : N := 31.
 Definition c_SQFS_BLK_FLAGS_ALL : N := 64543.
 Definition c_BLK_FLAG_MANUAL_SUBMISSION : N := 268435456.
 Definition c_BLK_FLAG_INTERNAL : N := 268435456.
-Definition c_BP_MIN_BACKLOG : N := 2.
+Definition c_BP_MIN_BACKLOG : N := 3.
